@@ -77,6 +77,14 @@ func GenerateRules(t *rapid.T, id string, avoid map[string]string) *Schema {
 		}
 		req.Fields = append(req.Fields, f)
 	}
+	if g.oneIn(3, "disc_oneof") {
+		// a discriminated oneof (not flattened) next to the ruled fields: the message schema is then assembled by
+		// another builder, which must publish the same constraints and required list
+		req.Oneofs = []*Oneof{{Name: "content", Discriminator: "kind"}}
+		req.Fields = append(req.Fields, &Field{Name: "note_text", Number: 90, Kind: KString, Card: Singular, Oneof: "content"},
+			&Field{Name: "note_code", Number: 91, Kind: KInt32, Card: Singular, Oneof: "content"})
+		g.tagf("shape:discriminated_oneof")
+	}
 	m := &Method{Name: "Check", Input: pkg + ".CheckRequest", Output: pkg + ".CheckResponse", HasConfig: true, Path: "/check", Verb: 2}
 	s.Files = []*File{{Name: id + "/rules.proto", Generate: true, Messages: []*Message{req, resp},
 		Services: []*Service{{Name: "RuleService", Methods: []*Method{m}}}}}
